@@ -236,7 +236,12 @@ func shortTypeName(t types.Type) string {
 		if p == nil {
 			return ""
 		}
-		return p.Name()
+		// package names are not unique (several "client", "errors", ...): qualify by a shortened import path
+		path := p.Path()
+		path = strings.TrimPrefix(path, "github.com/tikv/client-go/v2/")
+		path = strings.TrimPrefix(path, "github.com/pingcap/kvproto/pkg/")
+		path = strings.TrimPrefix(path, "github.com/")
+		return path
 	}
 	return sanitize(aliasRe.ReplaceAllStringFunc(types.TypeString(t, q), func(m string) string {
 		switch m {
